@@ -9,6 +9,7 @@
 From Coq Require Import String ZArith List Bool.
 From Coq Require Import Permutation.
 From HD Require Import Base.Val C20_Model C20_Proofs C20_Proofs_Str C20_Proofs_Obj C20_Proofs_Ext.
+From HD Require Import C20_Model_Ref C20_Proofs_Ref.
 Import ListNotations.
 
 (* ------------------------------------------------------------------ *)
@@ -601,3 +602,91 @@ Example C20_ex_segmented_measures_area :
   run_displayed_area true [] = VErr "IndexError".
 Proof. exact ex_segmented_measures_area. Qed.
 Print Assumptions C20_ex_segmented_measures_area.
+
+(* ------------------------------------------------------------------ *)
+(* 14. VOI LUT transformations that refer to frames of the referenced   *)
+(*     images (pr/content.py _add_softcopy_voi_lut_attributes)          *)
+
+(* whatever the referenced images and however many transformations refer to
+   whichever frames: if the check accepts them, the frame numbers held by the
+   CALLER'S transformations are what they were (the accumulators of the check
+   are never the caller's elements), no (image, frame) is claimed by two
+   references, and every reference is to an image of the presentation state *)
+Theorem C20_voi_refs_accepted : forall imgs ts c, voi_refs imgs ts = Ok c ->
+  c = cells_of ts /\ NoDup (claims imgs ts) /\
+  Forall (fun it => (fst it < length imgs)%nat) (all_items ts).
+Proof. exact voi_refs_sound. Qed.
+Print Assumptions C20_voi_refs_accepted.
+
+(* conversely every non-empty list of transformations (each with references
+   when there are several) whose references are pairwise disjoint claims on
+   multi-frame images of the presentation state is accepted, and handed back
+   as it was; a refusal is a ValueError.
+   FULL statement (not proved for single-frame images): accepted iff, in
+   addition, no single-frame image is referenced by an item after an earlier
+   item claimed a frame of it - proved here as soundness (above), completeness
+   for multi-frame images, and the refusal of a single-frame image referenced twice *)
+Theorem C20_voi_refs_accepts_disjoint_partial : forall imgs ts,
+  (ts <> [] -> ((1 < length ts)%nat -> forallb has_refs ts = true) ->
+   Forall (fun it => exists im, nth_error imgs (fst it) = Some im /\ ri_mf im = true) (all_items ts) ->
+   NoDup (claims imgs ts) -> voi_refs imgs ts = Ok (cells_of ts)) /\
+  (forall e, voi_refs imgs ts = Err e -> e = "ValueError"%string) /\
+  voi_refs [{| ri_mf := false; ri_n := 1%Z |}] [Some [(0%nat, None)]; Some [(0%nat, None)]] = Err "ValueError".
+Proof.
+  intros imgs ts. split; [exact (voi_refs_complete imgs ts)|]. split; [exact (voi_refs_error imgs ts)|].
+  exact single_frame_twice_refused.
+Qed.
+Print Assumptions C20_voi_refs_accepts_disjoint_partial.
+
+(* a check that keeps the caller's own multi-valued ReferencedFrameNumber as
+   its accumulator (seed C20-m10) accepts the same transformations and ALTERS
+   the first of them: [1;2] and [3;4] become [1;2;3;4] and [3;4]; not so when
+   the first reference lists one frame (a scalar element) *)
+Theorem C20_voi_alias_accumulator_refuted :
+  (exists imgs ts c, voi_refs_aliasing imgs ts = Ok c /\ c <> cells_of ts /\
+     voi_refs imgs ts = Ok (cells_of ts) /\ c = [[Some [1; 2; 3; 4]]; [Some [3; 4]]]%Z) /\
+  voi_refs_aliasing [{| ri_mf := true; ri_n := 6%Z |}]
+    [Some [(0%nat, Some [6]%Z)]; Some [(0%nat, Some [1; 2]%Z)]] = Ok [[Some [6]]; [Some [1; 2]]]%Z.
+Proof. exact (conj voi_alias_refuted voi_alias_single_first_unchanged). Qed.
+Print Assumptions C20_voi_alias_accumulator_refuted.
+
+(* ------------------------------------------------------------------ *)
+(* 15. copies of objects that already are objects of the library        *)
+(*     (image.py _Image.__getstate__, from_dataset(copy=True) = deepcopy) *)
+
+(* for image objects (whose class installs __getstate__) and all other
+   datasets, and for each of from_dataset(copy=True), from_dataset(copy=False),
+   copy.deepcopy and pickle: the original's instance dictionary is not written
+   to, and the result is the argument itself exactly for copy=False *)
+Theorem C20_object_copy_never_writes : forall image op,
+  snd (obj_copy image op) = false /\ (fst (obj_copy image op) = true <-> op = CFromNoCopy).
+Proof. exact obj_copy_spec. Qed.
+Print Assumptions C20_object_copy_never_writes.
+
+(* exact write criterion for either way of obtaining the state; handing the
+   instance dictionary itself to the copier (state = vars(self), seed C20-m12)
+   removes the original's frame look-up database exactly for image objects and
+   every operation other than from_dataset(copy=False) *)
+Theorem C20_getstate_write_criterion : forall image op,
+  (forall copy_first, snd (run_ops View (obj_copy_ops_gen copy_first image op)) =
+     negb copy_first && image && match op with CFromNoCopy => false | _ => true end) /\
+  (snd (run_ops View (obj_copy_ops_vars image op)) = true <-> image = true /\ op <> CFromNoCopy).
+Proof.
+  intros image op. exact (conj (fun cf => obj_copy_write_criterion cf image op) (obj_copy_vars_writes_iff image op)).
+Qed.
+Print Assumptions C20_getstate_write_criterion.
+
+Example C20_ex_voi_refs_object_copy :
+  run_voi_refs [(true, 6)]%Z [Some [(0%nat, Some [1; 2]%Z)]; Some [(0%nat, Some [3; 4]%Z)]] =
+    VL [VL [VL [vz_list [1; 2]%Z]; VL [vz_list [3; 4]%Z]]; VL [VL [vz_list [1; 2]%Z]; VL [vz_list [3; 4]%Z]]] /\
+  run_voi_refs [(true, 6)]%Z [Some [(0%nat, None)]; Some [(0%nat, Some [2]%Z)]] = VErr "ValueError" /\
+  run_voi_refs [(true, 6)]%Z [None] = VL [VL [VL []]; VL [VL []]] /\
+  run_voi_refs [(true, 6)]%Z [None; None] = VErr "ValueError" /\
+  run_voi_refs [(true, 6)]%Z [] = VErr "ValueError" /\
+  run_voi_refs [(true, 3)]%Z [Some [(1%nat, Some [1; 2]%Z)]] = VErr "ValueError" /\
+  run_voi_refs [(false, 1); (false, 1)]%Z [Some [(0%nat, None)]; Some [(1%nat, None)]] =
+    VL [VL [VL [VNone]; VL [VNone]]; VL [VL [VNone]; VL [VNone]]] /\
+  run_obj_copy true 0 = VL [VB false; VB false] /\ run_obj_copy true 1 = VL [VB true; VB false] /\
+  run_obj_copy false 3 = VL [VB false; VB false].
+Proof. exact ex_voi_obj. Qed.
+Print Assumptions C20_ex_voi_refs_object_copy.
